@@ -108,11 +108,13 @@ def brute_pairs(scaffolds):
 def body_scan(case, rec):
     scaffolds = case["scaffolds"]
     asm = conv.mk_assembly("a", scaffolds)
+    _frags, want, disjoint = brute_pairs(scaffolds)
+    if case.get("alias"):
+        return body_scan_aliased(case, rec, asm, want, disjoint)
     pos = {}
     for si, s in enumerate(asm.scaffolds):
         for ri, row in enumerate(s.rows):
             pos[id(row)] = (si, ri)
-    _frags, want, disjoint = brute_pairs(scaffolds)
     rec.note(case, bool(want) and disjoint > 0, {"has_overlaps"} if want else {"no_overlaps"})
     got = must(asm.find_overlapping_fragments, what="find_overlapping_fragments")
     if not want:
@@ -132,6 +134,34 @@ def body_scan(case, rec):
     if set(seen) != want:
         raise Violation(f"scan reported {sorted(seen)}, brute force finds {sorted(want)}")
     second_scan(case, asm)
+
+
+def body_scan_aliased(case, rec, asm, want, disjoint):
+    """
+    One Fragment OBJECT sits in two rows (a contig piece used twice, as when rows sliced out of an input scaffold are
+    placed twice): rows cannot be told apart by identity, so pairs are compared as a multiset of
+    ((scaffold index, contig, start, end), (scaffold index, contig, start, end)).
+    """
+    from collections import Counter
+
+    (si, ri), (sj, rj) = case["alias"]
+    asm.scaffolds[sj].rows[rj] = asm.scaffolds[si].rows[ri]
+    scaffolds = case["scaffolds"]
+
+    def key(si_, r):
+        return (si_, r[1], r[2], r[3])
+
+    want_ms = Counter(tuple(sorted((key(a[0], scaffolds[a[0]][1][a[1]]), key(b[0], scaffolds[b[0]][1][b[1]])))) for a, b in want)
+    rec.note(case, bool(want) and disjoint > 0, {"same_fragment_object_in_two_rows"})
+    got = must(asm.find_overlapping_fragments, what="find_overlapping_fragments") or []
+    sidx = {id(sc): k for k, sc in enumerate(asm.scaffolds)}
+    got_ms = Counter()
+    for (f1, s1), (f2, s2) in got:
+        if id(s1) not in sidx or id(s2) not in sidx or not any(r is f1 for r in s1.rows) or not any(r is f2 for r in s2.rows):
+            raise Violation("scan reported a fragment with a scaffold that does not hold it")
+        got_ms[tuple(sorted(((sidx[id(s1)], f1.name, f1.start, f1.end), (sidx[id(s2)], f2.name, f2.start, f2.end))))] += 1
+    if got_ms != want_ms:
+        raise Violation(f"one Fragment object used in two rows: scan reported {sorted(got_ms.items())}, brute force finds {sorted(want_ms.items())}")
 
 
 def second_scan(case, asm):
@@ -222,7 +252,16 @@ def assemblies(draw):
             scaffolds.append([f"s{si + 1}", rows])
     if len(scaffolds) >= 3 and draw(st.integers(0, 3)) == 0:
         scaffolds[2][0] = scaffolds[0][0]  # an object name that re-appears after another object (legal, interleaved layout)
-    return {"scaffolds": scaffolds, "replace": [draw(st.integers(0, 50)), draw(st.integers(1, hi)), draw(st.integers(0, 3))] if draw(st.booleans()) else None}
+    case = {"scaffolds": scaffolds, "replace": [draw(st.integers(0, 50)), draw(st.integers(1, hi)), draw(st.integers(0, 3))] if draw(st.booleans()) else None}
+    frs = [(si, ri) for si, (_n, rows) in enumerate(scaffolds) for ri, r in enumerate(rows) if r[0] == "F"]
+    if frs and draw(st.integers(0, 5)) == 0:
+        # the same Fragment object is placed a second time (same or another scaffold)
+        si, ri = draw(st.sampled_from(frs))
+        sj = draw(st.integers(0, len(scaffolds) - 1))
+        scaffolds[sj][1].append(list(scaffolds[si][1][ri]))
+        case["alias"] = [[si, ri], [sj, len(scaffolds[sj][1]) - 1]]
+        case["replace"] = None
+    return case
 
 
 SUBS = [
